@@ -312,7 +312,7 @@ Contract(
     },
     axioms=MASK_AXIOMS,
     properties=["C19"],
-    fuel=5,
+    fuel=4,
     note="the constructor establishes the representation invariant WF: empty caches for every world of the ranking, then one "
     "add_conditional per revision conditional (registered under their indices, in order)",
 )
